@@ -447,11 +447,24 @@ fn reply_script(reply: &Reply) -> (Script, (u64, Vec<u8>, ReplySeen)) {
 #[derive(Serialize, Deserialize, Clone, Debug, PartialEq)]
 pub enum PuppetQuery {
     Dump {},
+    /// the contract's storage between the bounds, in the given order, advanced past `skip` records
+    Range { start: Option<Binary>, end: Option<Binary>, desc: bool, skip: u32 },
 }
 
 /// The smart query answers with the tag of the code that serves it and the contract's storage.
 fn do_query(storage: &dyn Storage, code_tag: u32) -> StdResult<Binary> {
-    let v: Vec<(Binary, Binary)> = storage.range(None, None, Order::Ascending).map(|(k, v)| (Binary::from(k), Binary::from(v))).collect();
+    do_query_msg(storage, code_tag, &PuppetQuery::Dump {})
+}
+
+fn do_query_msg(storage: &dyn Storage, code_tag: u32, q: &PuppetQuery) -> StdResult<Binary> {
+    let v: Vec<(Binary, Binary)> = match q {
+        PuppetQuery::Dump {} => storage.range(None, None, Order::Ascending).map(|(k, v)| (Binary::from(k), Binary::from(v))).collect(),
+        PuppetQuery::Range { start, end, desc, skip } => storage
+            .range(start.as_ref().map(|b| b.as_slice()), end.as_ref().map(|b| b.as_slice()), if *desc { Order::Descending } else { Order::Ascending })
+            .skip(*skip as usize)
+            .map(|(k, v)| (Binary::from(k), Binary::from(v)))
+            .collect(),
+    };
     to_json_binary(&(code_tag, v))
 }
 
@@ -475,8 +488,9 @@ impl Contract<PMsg, PQuery> for Puppet {
         let s = parse(&msg)?;
         Ok(interpret::<PMsg, PQuery>(deps, env, Entry::Instantiate, self.code_tag, Some(info.sender.to_string()), info.funds, &s, None)?)
     }
-    fn query(&self, deps: Deps<PQuery>, _env: Env, _msg: Vec<u8>) -> AnyResult<Binary> {
-        Ok(do_query(deps.storage, self.code_tag)?)
+    fn query(&self, deps: Deps<PQuery>, _env: Env, msg: Vec<u8>) -> AnyResult<Binary> {
+        let q = serde_json::from_slice::<PuppetQuery>(&msg).unwrap_or(PuppetQuery::Dump {});
+        Ok(do_query_msg(deps.storage, self.code_tag, &q)?)
     }
     fn sudo(&self, deps: DepsMut<PQuery>, env: Env, msg: Vec<u8>) -> AnyResult<Response<PMsg>> {
         let s = parse(&msg)?;
@@ -505,8 +519,8 @@ fn e_execute(deps: DepsMut, env: Env, info: MessageInfo, s: Script) -> StdResult
 fn e_instantiate(deps: DepsMut, env: Env, info: MessageInfo, s: Script) -> StdResult<Response> {
     interpret::<Empty, Empty>(deps, env, Entry::Instantiate, LIFTED_TAG, Some(info.sender.to_string()), info.funds, &s, None)
 }
-fn e_query(deps: Deps, _env: Env, _m: PuppetQuery) -> StdResult<Binary> {
-    do_query(deps.storage, LIFTED_TAG)
+fn e_query(deps: Deps, _env: Env, m: PuppetQuery) -> StdResult<Binary> {
+    do_query_msg(deps.storage, LIFTED_TAG, &m)
 }
 fn e_sudo(deps: DepsMut, env: Env, s: Script) -> StdResult<Response> {
     interpret::<Empty, Empty>(deps, env, Entry::Sudo, LIFTED_TAG, None, vec![], &s, None)
@@ -542,8 +556,8 @@ fn p_execute<const TAG: u32>(deps: DepsMut<PQuery>, env: Env, info: MessageInfo,
 fn p_instantiate<const TAG: u32>(deps: DepsMut<PQuery>, env: Env, info: MessageInfo, s: Script) -> StdResult<Response<PMsg>> {
     interpret::<PMsg, PQuery>(deps, env, Entry::Instantiate, TAG, Some(info.sender.to_string()), info.funds, &s, None)
 }
-fn p_query<const TAG: u32>(deps: Deps<PQuery>, _env: Env, _m: PuppetQuery) -> StdResult<Binary> {
-    do_query(deps.storage, TAG)
+fn p_query<const TAG: u32>(deps: Deps<PQuery>, _env: Env, m: PuppetQuery) -> StdResult<Binary> {
+    do_query_msg(deps.storage, TAG, &m)
 }
 fn p_sudo<const TAG: u32>(deps: DepsMut<PQuery>, env: Env, s: Script) -> StdResult<Response<PMsg>> {
     interpret::<PMsg, PQuery>(deps, env, Entry::Sudo, TAG, None, vec![], &s, None)
